@@ -335,6 +335,73 @@ def kernel_vector_lifetime(facts, res):
             raise AnalysisBroken("%s: fewer than 2 uses of the kernel vector found" % cls)
 
 
+def counters_travel(facts, res, classes=("TbfInteractionCounter", "TbfInteractionTimer"), R="C18.5.counters-travel"):
+    """The counts live in the kernel object.  Executors keep kernels in vectors (growth relocates them) and users keep executors in
+    containers or hand a used kernel on: relocating an object must not change what it has counted.  Decided on the special members: a
+    move constructor / move assignment that exists carries every state member of the decorator from its argument; where the class declares
+    a copy operation (which suppresses the implicit move) and no move, relocation IS that copy, and the copy must carry them.  A copy that
+    starts from zero is fine as long as a move that carries the counts is declared next to it."""
+    n = 0
+    for cls in classes:
+        cl = [c for c in facts.classes if c["name"] == cls]
+        if len(cl) != 1:
+            raise AnalysisBroken("%s: class not found" % cls)
+        state = [f["name"] for f in cl[0].get("fields", [])]
+        if not state:
+            raise AnalysisBroken("%s: no state member found (counters confirmed by reading)" % cls)
+        ms = [m for m in facts.methods_of(cls) if not m.get("inst")]
+
+        def special(kind, move):
+            out = []
+            for m in ms:
+                if (kind == "ctor" and m["kind"] == "CXXConstructor") or (kind == "assign" and m["name"] == "operator="):
+                    if len(m["params"]) == 1:
+                        t = m["params"][0]["t"]
+                        if re.search(r"\b%s\b" % cls, t) and (("&&" in t) == move) and "&" in t:
+                            out.append(m)
+            return out
+
+        def carries(m):
+            """state members not taken from the argument"""
+            if m.get("defaulted"):
+                return []
+            if m.get("deleted") or tbf.body(m) is None:
+                return list(state)
+            p = m["params"][0]["did"]
+            got = set()
+
+            def from_arg(e, f):
+                return any(z.get("k") in ("MemberExpr", "CXXDependentScopeMemberExpr") and z.get("name") == f and kids(z) and any(y.get("did") == p for y in walk(kids(z)[0])) for z in walk(e))
+            for i in m.get("inits", []):
+                if i.get("member") in state and i.get("written") and any(from_arg(c_, i["member"]) for c_ in i.get("c", []) if c_):
+                    got.add(i["member"])
+            for x in walk(tbf.body(m)):
+                if x.get("k") in ("BinaryOperator", "CXXOperatorCallExpr") and x.get("op") == "=":
+                    l, r = (kids(x)[0], kids(x)[1]) if x.get("k") == "BinaryOperator" else (kids(x)[1], kids(x)[2])
+                    l = strip(l)
+                    if l.get("k") in ("MemberExpr", "CXXDependentScopeMemberExpr") and l.get("name") in state and from_arg(r, l["name"]):
+                        got.add(l["name"])
+            return [f for f in state if f not in got]
+        for kind, what in (("ctor", "constructor"), ("assign", "assignment")):
+            mv, cp = special(kind, True), special(kind, False)
+            n += 1
+            res.instance(R, "%s %s" % (cls, what), facts.loc(cl[0]) if cl[0].get("l") else cls, "state %s; move %s declared %s; copy %s declared %s"
+                         % (state, what, "yes" if mv else "no (implicit or suppressed)", what, "yes" if cp else "no (implicit)"))
+            for m in mv:
+                left = carries(m)
+                if left:
+                    res.violation(R, tbf.rel(facts.path_of(m)), m["qname"], "move-%s:%s" % (kind, ",".join(left)), m["l"][1],
+                                  "the move %s of %s does not take %s from its argument: a kernel relocated by its container (vector growth, an executor moved or stored) forgets what it has counted" % (what, cls, left))
+            if not mv:
+                # any user-declared copy operation suppresses the implicit move: relocation falls back to the copy
+                for m in cp:
+                    left = carries(m)
+                    if left:
+                        res.violation(R, tbf.rel(facts.path_of(m)), m["qname"], "copy-as-move-%s:%s" % (kind, ",".join(left)), m["l"][1],
+                                      "%s declares a copy %s that does not take %s from its argument and no move %s: declaring the copy suppresses the implicit move, so every relocation of a kernel (vector growth, an executor object moved or stored in a container) goes through this copy and the counts made so far are lost" % (cls, what, left, what))
+    return n
+
+
 def run(res, tier):
     facts = tbf.scan("core")
     res.units.append("umbrella TU 'core': TbfInteractionCounter/Timer/Printer, Counters/Timers::Reduce, applyToAllKernels of 6 executors")
@@ -351,6 +418,8 @@ def run(res, tier):
     reduce_coverage(facts, res)
     apply_to_all(facts, res)
     kernel_vector_lifetime(facts, res)
+    res.rule("C18.5 counters travel with the kernel object: a declared move constructor / assignment of a counting decorator takes its state from the argument; a declared copy without a declared move (the implicit move is then suppressed) must take it too")
+    res.floor("C18.5", counters_travel(facts, res), 4, "special-member slots of the counting decorators")
     # every operator application of a task executor goes through its own stages and its own per-worker kernels (the objects applyToAllKernels visits)
     import c03
     import stages
